@@ -161,47 +161,20 @@ def rule_t3(report, prog):
 
 
 def rule_t4(report, prog):
+    # the writer and UPDATE BINARY folded over NLEN sizes x MLc values x message lengths (rules/t4model.py): the command sequence of
+    # the source text, replayed on a file that holds an older message
+    from . import t4model
     f = prog.func('nfc.tag.tt4.Type4Tag.NDEF._write_ndef_data')
-    cfg = cfg_of(f)
-    t = [tn for e, tn in cfg.test_nodes.items() if norm(e) == 'len(nlen) + len(data) <= self._max_lc']
-    okk = len(t) == 1 and isinstance(t[0].owner, ast.If)
-    if okk:
-        b = [norm(s) for s in live(t[0].owner.body)]
-        o = [norm(s) for s in live(t[0].owner.orelse)]
-        okk = b == ['data = bytearray(nlen) + data', 'nlen = None'] and o == ['data = bytearray(len(nlen)) + data']
-    report.check(okk, 'C02-R5', key(f.qname, 'single command carries NLEN+data, else the first chunk carries a zero NLEN'), f.loc(),
-                 'Type 4 write no longer starts with either the complete file or a zero length')
-    fin = [n for n in cfg.nodes if n.kind == 'stmt' and n.ast is not None and norm(n.ast) == 'self._update_binary(0, nlen)']
-    loop_w = [n for n in cfg.nodes if n.kind == 'stmt' and n.ast is not None and 'self._update_binary(offset, data[offset:])' in norm(n.ast)]
-    okk = len(fin) == 1 and len(loop_w) == 1 and loop_w[0] not in cfg.reachable(fin[0]) and \
-        any(norm(tn.ast) == 'nlen' and isinstance(tn.owner, ast.If) and fin[0] in cfg.reachable(tn) for e, tn in cfg.test_nodes.items())
-    report.check(okk, 'C02-R5', key(f.qname, 'real NLEN is the last command'), f.loc(),
-                 'the real NLEN is not written after all data chunks')
-    if fin:
-        tn = [tn for e, tn in cfg.test_nodes.items() if norm(e) == 'nlen' and isinstance(tn.owner, ast.If)]
-        if tn:
-            # on the chunked branch (nlen kept) every normal path to the exit passes the final NLEN write
-            reach = cfg.reachable(tn[0], avoid_nodes=fin, avoid_edges=[(tn[0], 'false')], labels_excluded=('exc',))
-            report.check(cfg.exit not in reach, 'C02-R5', key(f.qname, 'chunked write always ends with the NLEN update'), f.loc(),
-                         'a chunked write can return without writing NLEN')
-    # the branch "whole file in one command" is taken when NLEN + data fit MLc; UPDATE BINARY must then really send that much: its chunk
-    # limit is MLc and nothing smaller (a second, tighter limit splits the "single" command and the real NLEN goes out first)
     ub = prog.func('nfc.tag.tt4.Type4Tag.NDEF._update_binary')
-    binds = [norm(st.value) for st in walk_no_nested(ub.node) if isinstance(st, (ast.Assign, ast.AugAssign)) and
-             any(isinstance(x, ast.Name) and x.id == 'max_data' for x in ast.walk(st.targets[0] if isinstance(st, ast.Assign) else st.target))]
-    cond = [norm(i.test) for i in walk_no_nested(f.node) if isinstance(i, ast.If) and 'self._max_lc' in norm(i.test)]
-    # further clamps by a constant that is not below the largest MLc _discover_ndef can store (255, short APDUs only) change nothing
-    extra = binds[1:]
-    harmless = all((match(ast.parse(b, mode='eval').body, 'min(max_data, $K)') or {}).get('K') is not None and
-                   isinstance(try_const(match(ast.parse(b, mode='eval').body, 'min(max_data, $K)')['K']), int) and
-                   try_const(match(ast.parse(b, mode='eval').body, 'min(max_data, $K)')['K']) >= 255 for b in extra)
-    dn = prog.func('nfc.tag.tt4.Type4Tag.NDEF._discover_ndef')
-    lc = [norm(st.value) for st in walk_no_nested(dn.node) if isinstance(st, ast.Assign) and norm(st.targets[0]) == 'self._max_lc']
-    lc_short = bool(lc) and all(v in ('1', 'min(mlc, 255)', 'min(255, mlc)') for v in lc)
-    okk = binds[:1] == ['min(self._max_lc, len(data))'] and (not extra or (harmless and lc_short)) and cond == ['len(nlen) + len(data) <= self._max_lc']
-    report.check(okk, 'C02-R5', key(ub.qname, 'chunk limit of UPDATE BINARY is the MLc the single-command branch tests'), ub.loc(),
-                 'the writer decides "one command" by %s but _update_binary limits a chunk by %s: a write taken for atomic is split, the first '
-                 'command already carries the final NLEN' % (cond, binds))
+    v = t4model.verdicts(prog)
+    report.stats['t4_write_grid'] = len(t4model.GRID)
+    report.check(not v['fold'], 'C02-R5', key(f.qname, 'writer folds to a command sequence'), f.loc(),
+                 'Type 4 writer can no longer be folded to its UPDATE BINARY sequence (%s)' % '; '.join(v['fold'][:2]))
+    report.check(not v['prefix'], 'C02-R5', key(f.qname, 'single command carries NLEN+data, else NLEN is zero until the last command'), f.loc(),
+                 'an interrupted Type 4 write leaves a non-zero NLEN: %s' % '; '.join(v['prefix'][:2]),
+                 detail='%d grid points' % len(t4model.GRID))
+    report.check(not v['final'], 'C02-R5', key(f.qname, 'real NLEN is the last command'), f.loc(),
+                 'the real NLEN is not in place after all commands: %s' % '; '.join(v['final'][:2]))
     w = prog.func('nfc.tag.tt4.Type4Tag.NDEF._wipe_ndef_data')
     wc = cfg_of(w)
     z = [n for n in wc.nodes if n.kind == 'stmt' and n.ast is not None and norm(n.ast) == 'self._update_binary(0, nlen)']
